@@ -20,6 +20,8 @@
 #include "message.h"
 #include "stream.h"
 #include "event.h"
+#include "connection.h"
+#include "notify.h"
 #include <poll.h>
 #include <sys/syscall.h>
 #include <errno.h>
@@ -427,7 +429,12 @@ static int l2_cb(void *arg, const message *m)
 	return 0;
 }
 struct L2Counters { uint64_t exec, nontrivial; };
-static void level2_body(Run &r, L2Counters &c, int f, const std::vector<Bytes> &msgs, Ctx &x, bool append = false)
+static int l2_ev_cb(void *arg, event *ev)
+{
+	if (ev && ev->msg) return l2_cb(arg, ev->msg);
+	return 0;
+}
+static void level2_body(Run &r, L2Counters &c, int f, const std::vector<Bytes> &msgs, Ctx &x, bool append = false, bool via_input = false)
 {
 	std::string sc = std::string(ref::framing_name[f]) + "|stream";
 	int pfd[2]; if (pipe(pfd) < 0) return;
@@ -439,15 +446,25 @@ static void level2_body(Run &r, L2Counters &c, int f, const std::vector<Bytes> &
 	{
 		stream snd, rcv;
 		_mpt_stream_setfile(&snd._info, -1, pfd[1]); mpt_stream_setmode(&snd, stream::WriteBuf); snd._wd._enc = encoders[f];
-		_mpt_stream_setfile(&rcv._info, pfd[0], -1); mpt_stream_setmode(&rcv, stream::ReadBuf); rcv._rd._dec = decoders[f];
+		// receiver: a plain stream driven with mpt_stream_poll + mpt_stream_dispatch, or the input object the event
+		// loop uses (mpt_stream_input: next() when readable, dispatch() while it reports Retry)
+		input *in = 0;
+		if (!via_input) { _mpt_stream_setfile(&rcv._info, pfd[0], -1); mpt_stream_setmode(&rcv, stream::ReadBuf); rcv._rd._dec = decoders[f]; }
+		else {
+			static const int codes[] = {EncodingCobs, EncodingCobsInline, EncodingCobs | EncodingCompress, EncodingCobsInline | EncodingCompress};
+			alignas(mpt::socket) char sb[sizeof(mpt::socket)]; mpt::socket *sk = (mpt::socket *) sb; sk->_id = pfd[0];
+			in = mpt_stream_input(sk, stream::Read | stream::Buffer, codes[f], 0);
+			if (!in) { r.violation(sc + "|input|create", desc + ": mpt_stream_input failed"); g_l2ctx = 0; close(pfd[0]); close(pfd[1]); return; }
+			sc += ",input";
+		}
 		L2recv rc; size_t mi = 0; int phase = 0;   // phase 0: push, 1: end, 2: flush
 		bool bad = false; int steps = 0;
 		auto check_prefix = [&]() { if (rc.got.size() > msgs.size()) return false; for (size_t i = 0; i < rc.got.size(); ++i) if (rc.got[i] != msgs[i]) return false; return true; };
 		auto receiver_round = [&]() {
 			r.hint((sc + "|poll").c_str());
-			if (g_inpipe) { int k = LIB(mpt_stream_poll(&rcv, POLLIN, -1)); r.note("poll -> %d (pipe %zu)", k, g_inpipe); }
+			if (g_inpipe) { int k = in ? LIB(in->next(POLLIN)) : LIB(mpt_stream_poll(&rcv, POLLIN, -1)); r.note("poll -> %d (pipe %zu)", k, g_inpipe); }
 			r.hint((sc + "|dispatch").c_str());
-			for (int i = 0; i < 64; ++i) { int e = LIB(mpt_stream_dispatch(&rcv, l2_cb, &rc)); r.note("dispatch -> 0x%x, %zu received", e, rc.got.size()); if (e < 0 || !(e & event::Retry)) break; }
+			for (int i = 0; i < 64; ++i) { int e = in ? LIB(in->dispatch(l2_ev_cb, &rc)) : LIB(mpt_stream_dispatch(&rcv, l2_cb, &rc)); r.note("dispatch -> 0x%x, %zu received", e, rc.got.size()); if (e < 0 || !(e & event::Retry)) break; }
 		};
 		while (!bad && steps++ < 400) {
 			bool sender_can = mi < msgs.size() || (snd._wd._state.done > 0);
@@ -492,9 +509,11 @@ static void level2_body(Run &r, L2Counters &c, int f, const std::vector<Bytes> &
 			else if (rc.got.size() != msgs.size() || !check_prefix()) r.violation(sc + "|stall", desc + fmt(": all frames written and read, %zu of %zu messages delivered", rc.got.size(), msgs.size()));
 		}
 		g_l2ctx = 0;     // stream destructors flush/close without explorer choices
+		if (in) { in->unref(); pfd[0] = -1; }   // the input owns (and closes) its descriptor
 	}
 	g_l2ctx = 0; g_rfd = g_wfd = -1;
-	close(pfd[0]); close(pfd[1]);
+	if (pfd[0] >= 0) close(pfd[0]);
+	close(pfd[1]);
 	++c.exec; ++r.transitions;
 	if (g_short_writes + g_short_reads + g_eagain != sw0) ++c.nontrivial;
 }
@@ -519,6 +538,7 @@ void mc_jobs(Tier t, std::vector<std::string> &jobs)
 	for (int f = 0; f < 4; ++f) for (size_t i = 0; i < seqs.size(); ++i) jobs.push_back(fmt("L2:%d:%zu", f, i));
 	for (int f = 0; f < 4; ++f) for (size_t i = 0; i < long_streams().size(); ++i) jobs.push_back(fmt("L2L:%d:%zu", f, i));
 	for (int f = 0; f < 4; ++f) for (size_t i = 0; i < seqs.size(); ++i) jobs.push_back(fmt("L2A:%d:%zu", f, i));
+	for (int f = 0; f < 4; ++f) for (size_t i = 0; i < long_streams().size() + (seqs.size() < 6 ? seqs.size() : 6); ++i) jobs.push_back(fmt("L2I:%d:%zu", f, i));
 }
 static void run(Run &r, const std::string &job, const Vec *rep)
 {
@@ -533,6 +553,18 @@ static void run(Run &r, const std::string &job, const Vec *rep)
 		if (rep) { dfs_replay(r, [&](Ctx &x) { level2_body(r, c, f, msgs, x, true); }, *rep); return; }
 		dfs(r, [&](Ctx &x) { level2_body(r, c, f, msgs, x, true); }, dev);
 		r.states += c.exec; r.count("stream_level_executions", c.exec); r.count("stream_level_append_in_parts", c.exec); r.count("nontrivial", c.nontrivial);
+		return;
+	}
+	if (job.compare(0, 4, "L2I:") == 0) {
+		if (sscanf(job.c_str() + 4, "%d:%zu", &f, &si) != 2) return;
+		std::vector<Bytes> msgs;
+		if (si < long_streams().size()) msgs = long_streams()[si];
+		else { std::vector<std::vector<int>> seqs; sequences(r.tier, seqs); si -= long_streams().size(); if (si >= seqs.size()) return; std::vector<Bytes> alpha = alphabet(r.tier); for (int i : seqs[si]) msgs.push_back(alpha[i]); }
+		L2Counters c = {};
+		int dev = r.tier == Quick ? 2 : 3;
+		if (rep) { dfs_replay(r, [&](Ctx &x) { level2_body(r, c, f, msgs, x, false, true); }, *rep); return; }
+		dfs(r, [&](Ctx &x) { level2_body(r, c, f, msgs, x, false, true); }, dev);
+		r.states += c.exec; r.count("stream_level_executions", c.exec); r.count("stream_level_input_object", c.exec); r.count("nontrivial", c.nontrivial);
 		return;
 	}
 	if (job.compare(0, 4, "L2L:") == 0) {
